@@ -339,7 +339,7 @@ CHECKS = {
              "adder, replayed once in order after the version is fixed, then "
              "cleared; Gfa() and read_file replay after the last line; "
              "Gfa() refuses unknown version/dialect arguments. " 
-             "Also decided: GFA1-only record types are refused for custom records at every level; VN values other than 1.0/2.0 are refused at vlevel > 0.",
+             "Also decided: GFA1-only record types are refused for custom records at every level; VN values other than 1.0/2.0 are refused at vlevel > 0; a version given explicitly to Gfa() is the one the instance keeps for every dialect, and from_file hands version, dialect and vlevel to Gfa() as given.",
         note="Undecided: that the inferred version is the same for every "
              "order of a concrete document (the tables make each single "
              "decision right; their composition over arrival orders is not "
@@ -363,7 +363,7 @@ CHECKS = {
              "(the from/to accessors of E lines used for re-pointing); copy "
              "names skip identifiers in use; unknown distribution policies "
              "are refused. " 
-             "Also decided: link distribution leaves every neighbour end linked to some copy (all neighbour lists up to 5 links, factors 2-4).",
+             "Also decided: link distribution leaves every neighbour end linked to some copy and terminates without error (all neighbour lists up to 5 links, factors 2-4, also with a hairpin link listed twice on the distributed end); no line that its class makes unhashable (containments, unnamed edges) is hashed by the count division; the clone of a named edge is not connected under the original's identifier; automatic copy names avoid every identifier held by the registry, placeholders included, for each version; apply_copy_numbers multiplies each segment once by the value of the count tag and writes nothing afterwards.",
         note="Undecided: equality of the copies' neighbourhoods, which links "
              "each copy keeps under a distribution policy (an algorithmic "
              "property of _distribute_links on concrete link lists), count "
@@ -413,7 +413,7 @@ CHECKS = {
              "build from text is constructed with the Gfa's vlevel, for every "
              "record type and version state (write-time validation at >= 2 is "
              "decided under C20). " 
-             "Also decided: field_to_s validates what it writes exactly at level >= 2 for stored text and for encoded objects (write_threshold); validate_field validates the stored value itself, not a lazily decoded copy.",
+             "Also decided: field_to_s validates what it writes exactly at level >= 2 for stored text and for encoded objects (write_threshold); validate_field validates the stored value itself, not a lazily decoded copy; Field._validate_gfa_field hands every class of value to the validator of its datatype (no class is accepted unasked); a tag without recorded datatype is validated as the default datatype of the value.",
         note="Undecided: equality of the written text across levels and "
              "monotonic acceptance on concrete documents. " + TRUSTED),
     "C19": dict(
@@ -435,7 +435,7 @@ CHECKS = {
              "forms of both sides (so identifiers equal live references). A "
              "mutable value taking the 'share' action is state shared between "
              "clone and original, hence necessary. " 
-             "Also decided: attributes set only by the construction from text (custom records) reach the clone as new objects; the value classes clone() shares are immutable (no mutating method, no outside assignment).",
+             "Also decided: attributes set only by the construction from text (custom records) reach the clone as new objects; the value classes clone() shares are immutable (no mutating method, no outside assignment); after every history of set / set None / delete / accessor assignment (length <= 3, levels 0-3) that stores a dict or list in a custom tag, clone() does not share it; no function on the decoding path that may return a mutable object is memoised.",
         note="Undecided: aliasing created after cloning, equality on concrete "
              "values. The mutable/immutable classification of value classes "
              "is in spec.py and trusted. " + TRUSTED),
